@@ -99,6 +99,16 @@ type Image struct {
 	Err      string     `json:"err,omitempty"`
 	Async    *AsyncInfo `json:"async,omitempty"`
 	Txn      int        `json:"txn"` // pending (non-temporary) transaction files of the series index in the image
+	WalBytes []WalFile  `json:"walbytes,omitempty"` // raw log files of the image (sampled) for the framing tie
+}
+
+// one log file of a crash image: its bytes, the number of records completely appended to it and the bytes of a torn
+// append at its end
+type WalFile struct {
+	Rel  string `json:"rel"`
+	Hex  string `json:"hex"`
+	NRec int    `json:"nrec"`
+	Torn int    `json:"torn"`
 }
 
 type History struct {
@@ -377,6 +387,7 @@ func asyncHistory() spec {
 // ---- run ----
 
 type pending struct {
+	tornRel  string // log file that received the torn append
 	dir      string
 	img      Image
 	wal      map[string][]int // rel wal path -> write-op indexes of complete records
@@ -432,6 +443,31 @@ func partsOf(imgDir string, nwal int, wal map[string][]int, walEpoch map[string]
 		}
 	}
 	return
+}
+
+// the raw log files of an image directory (framing tie); files above 4 KiB are left out
+func walBytes(imgDir string, nwal int, wal map[string][]int, tornRel string, torn int) []WalFile {
+	var out []WalFile
+	for p := 0; p < nwal; p++ {
+		d := filepath.Join(imgDir, "wal", strconv.Itoa(p))
+		es, err := os.ReadDir(d)
+		if err != nil {
+			continue
+		}
+		for _, e := range es {
+			b, err := os.ReadFile(filepath.Join(d, e.Name()))
+			if err != nil || len(b) > 4096 {
+				continue
+			}
+			rp := filepath.Join("wal", strconv.Itoa(p), e.Name())
+			wf := WalFile{Rel: rp, Hex: fmt.Sprintf("%x", b), NRec: len(wal[rp])}
+			if rp == tornRel {
+				wf.Torn = torn
+			}
+			out = append(out, wf)
+		}
+	}
+	return out
 }
 
 // progress of the running history, read by the watchdog
@@ -546,7 +582,11 @@ func (rn *runner) runHistory(idx int, sp spec, r *gen.Rand) *History {
 				panic(err)
 			}
 		}
-		pend = append(pend, pending{dir: d, wal: copyWal(wal), walEpoch: copyEpoch(walEpoch),
+		tr := ""
+		if torn >= 0 && ev != nil {
+			tr = rel(ev.Path)
+		}
+		pend = append(pend, pending{dir: d, tornRel: tr, wal: copyWal(wal), walEpoch: copyEpoch(walEpoch),
 			img: Image{At: at, Op: cur, Acked: acked, Inflight: inflight, Torn: torn, Sub: -1, NRec: nrec, NSw: epoch, NJ: nj,
 				Gone: append([]int{}, gone...), Tie: !sp.auto}})
 	}
@@ -1161,9 +1201,14 @@ func (rn *runner) runHistory(idx int, sp spec, r *gen.Rand) *History {
 		im := p.img
 		tick(fmt.Sprintf("recovering image %d/%d (%s)", pi+1, len(pend), im.At))
 		parts, epochs, nfiles := partsOf(p.dir, nwal, p.wal, p.walEpoch)
+		var wb []WalFile
+		if im.Torn >= 0 || pi == 0 || pi == len(pend)-1 || pi%7 == 3 {
+			wb = walBytes(p.dir, nwal, p.wal, p.tornRel, im.Torn)
+		}
 		async := sp.async && im.Torn < 0
 		subs := check(&im, p.dir, !async && !(sp.tornAll >= 0 && im.Torn >= 0), async, nfiles)
 		im.Parts, im.Epochs = parts, epochs
+		im.WalBytes = wb
 		add(im)
 		nos := append([]int(nil), subNo...)
 		for j, sd := range subs {
